@@ -13,6 +13,10 @@ Proof route: the table and the decoder model read **every** bit pattern alike
 decoder is split into its branches and the rows of the group are walked with linear arithmetic);
 `enc_sound` is then C02 `dec_enc` read through that agreement, `enc_complete` is C03's canonicity
 (`decode16_out`, `decode32_out`) read through it, and `enc_reject` is the contrapositive of `enc_complete`.
+
+"Operand tuple" always means an instruction value in the crate's canonical operand order; the one place where the
+manual prints a second, commuted spelling for the same bits is stated explicitly in `add_sp_commuted_alias`
+(see also the header of `Spec/Arm.lean`).
 -/
 namespace Trion.Codec
 open Trion
@@ -90,8 +94,46 @@ theorem enc_len (i : Instr) (hws : List Nat) (h : encode i = .ok hws) (wf : i.wf
     · intro x hx; simp at hx; subst hx
       simp [Arm.wide]; omega
 
-/-- C01.e  Serialisation is little-endian, first halfword first. -/
-theorem bytes_le (h0 h1 : Nat) : toBytes [h0, h1] = [h0 % 256, h0 / 256, h1 % 256, h1 / 256] := rfl
+/-- C01.e  Serialisation is little-endian, first halfword first — for any number of halfwords, in
+particular the one or two that `enc_len` says the encoder emits. -/
+theorem bytes_le (hws : List Nat) : toBytes hws = hws.flatMap fun h => [h % 256, h / 256] := by
+  induction hws with
+  | nil => rfl
+  | cons h t ih => simp [toBytes, ih]
+
+example (h0 : Nat) : toBytes [h0] = [h0 % 256, h0 / 256] := rfl
+example (h0 h1 : Nat) : toBytes [h0, h1] = [h0 % 256, h0 / 256, h1 % 256, h1 / 256] := rfl
+
+/-- C01.f  The commuted spelling `ADD <Rdm>, SP, <Rdm>` (ADD (SP plus register) T1, `01000100 DM 1101 Rdm`).
+For every register `d` these bits — `0x4468 + DM·128 + Rdm` with `DM:Rdm = d` — are what the encoder emits for
+the instruction value in canonical operand order, `add dst=d lhs=d rhs=SP`; the table and the decoder read them
+back as that value.  The commuted value `add dst=d lhs=SP rhs=d` (d ≠ SP), which the manual prints for the same
+bits, is *not* a value of the table: the encoder rejects it and `enc_reject` applies to it.  So "has no
+encoding" in `enc_reject` is relative to operand tuples in the crate's canonical order (`dst = lhs` for the
+two-register ADD); accepting the commuted value as well would give two instruction values one encoding, which
+C02 (`enc_inj`) forbids. -/
+theorem add_sp_commuted_alias (d : Reg) :
+    encode (.add false d d (.reg Reg.sp)) = .ok [0x4468 + d.val / 8 * 128 + d.val % 8] ∧
+    Arm.decode [0x4468 + d.val / 8 * 128 + d.val % 8] = some (.add false d d (.reg Reg.sp)) ∧
+    decode (toBytes [0x4468 + d.val / 8 * 128 + d.val % 8]) = .ok (2, .add false d d (.reg Reg.sp)) ∧
+    (d ≠ Reg.sp → encode (.add false d Reg.sp (.reg d)) = .error .unrepresentable ∧
+      ∀ hws, Arm.decode hws ≠ some (.add false d Reg.sp (.reg d))) := by
+  have hd := d.isLt
+  have hsp : (Reg.sp : Reg).val = 13 := rfl
+  have he : encode (.add false d d (.reg Reg.sp)) = .ok [0x4468 + d.val / 8 * 128 + d.val % 8] := by
+    rw [encode, if_pos (Or.inl rfl), if_neg (by simp [hsp]), hsp]
+    congr 2; omega
+  have wf : (Instr.add false d d (.reg Reg.sp)).wf := by simp [Instr.wf, ImmReg.wf]
+  refine ⟨he, enc_sound _ _ he wf, ?_, ?_⟩
+  · have := dec_enc _ _ [] he wf
+    rw [List.append_nil] at this
+    exact this
+  · intro hne
+    have hr : encode (.add false d Reg.sp (.reg d)) = .error .unrepresentable := by
+      have h13 : d.val ≠ 13 := fun h => hne (Fin.ext h)
+      rw [encode, if_pos (Or.inl rfl), if_pos (Or.inr (Or.inl (by rw [hsp]; omega)))]
+      rfl
+    exact ⟨hr, enc_reject _ _ hr⟩
 
 /-- the table and the decoder agree on every pattern (the alias clause of C03: what the decoder returns is
 the architectural reading of the bytes) -/
@@ -177,6 +219,11 @@ example : encode (.cps true) = .ok [0xB662] ∧ Arm.decode [0xB662] = some (.cps
 example : encode (.add false 8 13 (.reg 8)) = .error .unrepresentable := rfl
 example : Arm.decode [0x4487] = some (.add false 15 15 (.reg 0)) := by decide +kernel
 example : Arm.decode [0x44FF] = none := by decide +kernel
+-- LDM/STM of nothing: DDI 0419 says UNPREDICTABLE (BitCount(registers) < 1); the crate accepts it in both directions and its
+-- own test suite pins that (test_default_instruction encodes Ldm/Stm with the default, empty set), so the table reads the
+-- pattern as the instruction (the reading is recorded in props/C01.json; PUSH/POP of nothing ARE rejected)
+example : encode (.ldm 0 0) = .ok [0xC800] ∧ Arm.decode [0xC800] = some (.ldm 0 0) := ⟨rfl, by decide +kernel⟩
+example : encode (.ldm 0 1) = .ok [0xC801] ∧ Arm.decode [0xC801] = some (.ldm 0 1) := ⟨rfl, by decide +kernel⟩
 example : encode (.bl (-4)) = .ok [0xF7FF, 0xFFFE] ∧ Arm.decode [0xF7FF, 0xFFFE] = some (.bl (-4)) :=
   ⟨rfl, by decide +kernel⟩
 -- the alias allowed by `enc_complete`: the three-operand diagram with Rd = Rn is read as the same tuple
